@@ -2,7 +2,7 @@
 //! reports, and what makes a run non-trivial for it.
 use crate::gen::*;
 use crate::oracle::Facts;
-use crate::plan::Plan;
+use crate::plan::{Op, Plan};
 use crate::rng::mix2;
 
 pub struct CheckDef {
@@ -44,7 +44,43 @@ pub fn rule_claimed(def: &CheckDef, rule: &str) -> bool {
 }
 
 /// seed -> Plan for the given check. The family is drawn from the seed (swarm style).
-pub fn generate(id: &str, run_seed: u64, _thorough: bool) -> Plan {
+pub fn generate(id: &str, run_seed: u64, thorough: bool) -> Plan {
+    let mut plan = generate_family(id, run_seed, thorough);
+    retry_abandoned(&mut plan, run_seed);
+    plan
+}
+
+/// Client retries (request duplication): a request whose client went away is, in a share of the
+/// runs, issued again by the same client right afterwards (what a gRPC retry policy does). The
+/// sequential "lease" plans are left alone (their generator tracks virtual time exactly).
+fn retry_abandoned(plan: &mut Plan, run_seed: u64) {
+    if plan.has_tag("sequential") || mix2(run_seed, 0x2E72) % 100 >= 35 {
+        return;
+    }
+    let mut n = 0u64;
+    for phase in plan.phases.iter_mut() {
+        for script in phase.scripts.iter_mut() {
+            let mut i = 0;
+            while i < script.len() {
+                let st = &script[i];
+                let abandoned = st.abandon_at > 0 || st.abandon_after_us > 0;
+                let retryable = matches!(st.op, Op::CreateTopic { .. } | Op::DeleteTopic { .. } | Op::CreateSub { .. } | Op::DeleteSub { .. } | Op::Publish { .. } | Op::Ack { .. } | Op::ModAck { .. } | Op::GetSub { .. } | Op::GetTopic { .. });
+                n += 1;
+                if abandoned && retryable && mix2(run_seed ^ 0xD0_0B1E, n) % 100 < 50 {
+                    let mut again = st.clone();
+                    again.abandon_at = 0;
+                    again.abandon_after_us = 0;
+                    again.delay_us = mix2(run_seed ^ 0x0DE1A7, n) % 3 * (mix2(run_seed, n) % 2_000);
+                    script.insert(i + 1, again);
+                    i += 1;
+                }
+                i += 1;
+            }
+        }
+    }
+}
+
+fn generate_family(id: &str, run_seed: u64, _thorough: bool) -> Plan {
     let pick = mix2(run_seed, 0xF00D) % 100;
     // thorough tier: a quarter of the general-family runs are wide
     let scale = if _thorough && mix2(run_seed, 0x5CA1E) % 4 == 0 { 2 } else { 1 };
